@@ -421,7 +421,11 @@ def group_facts(tree):
     if ib and match("if V_fn in self.fieldname_to_record:\n    continue", ib[0], env) is not None:
         first_wins = True
         ib = ib[1:]
-    if not ib or match("self.fieldname_to_record[V_fn] = V_rec", ib[0], env) is None:
+    if ib and match("self.fieldname_to_record[V_fn] = V_rec.fieldname_to_record[V_fn] if isinstance(V_rec, GroupedRecord) else V_rec", ib[0], env) is not None:
+        maps_to_leaf = True
+    elif ib and match("self.fieldname_to_record[V_fn] = V_rec", ib[0], env) is not None:
+        maps_to_leaf = False
+    else:
         raise Unsupported("%s: the routing entry has another shape" % where(q, inner))
     ib = ib[1:]
     if len(ib) != 1:
@@ -452,7 +456,17 @@ def group_facts(tree):
               and match("return object.__setattr__(self, attr, val)", sa[1]) is not None)
     if not routes:
         raise Unsupported("GroupedRecord.__setattr__ has another shape")
-    return dict(first_wins=first_wins, flat_excl=flat_excl, routes=True)
+    # the attributes the group object itself carries: self.<x> = ... and self.__dict__["<x>"] = ... in __init__
+    attrs = []
+    for node in ast.walk(fn):
+        if isinstance(node, ast.Assign):
+            for t in node.targets:
+                if isinstance(t, ast.Attribute) and isinstance(t.value, ast.Name) and t.value.id == "self" and t.attr not in attrs:
+                    attrs.append(t.attr)
+                if (isinstance(t, ast.Subscript) and match("self.__dict__", t.value, None, "expr") is not None
+                        and isinstance(t.slice, ast.Constant) and isinstance(t.slice.value, str) and t.slice.value not in attrs):
+                    attrs.append(t.slice.value)
+    return dict(first_wins=first_wins, flat_excl=flat_excl, routes=True, maps_to_leaf=maps_to_leaf, attrs=sorted(attrs))
 
 
 RAISE_LEFTOVER = 'if kwds:\n    raise ValueError("Got unexpected field names: {kwds!r}".format(kwds=list(kwds)))'
@@ -670,6 +684,8 @@ def gen_compose():
     out += "   and without fields= *)\n"
     out += "Definition gen_all_fields_copies : bool := %s.\n" % cbool(pu["copies"])
     out += "Definition gen_group_asdict_reads_member : bool := %s.\n\n" % cbool(pu["asdict_member"])
+    out += "(* attributes a GroupedRecord object itself carries (assigned in GroupedRecord.__init__) *)\n"
+    out += "Definition gen_group_attrs : list string := %s.\n\n" % clist([cstr(a) for a in g["attrs"]])
     out += "(* shapes read from merge_record_descriptors, extend_record, RecordDescriptor.init_from_dict,\n"
     out += "   iter_timestamped_records, GroupedRecord.__init__/__getattr__/__setattr__/_replace, Record._replace,\n"
     out += "   RecordFieldRewriter.record_descriptor_for_fields/rewrite *)\n"
@@ -690,6 +706,7 @@ def gen_compose():
         "f_rewrite_exclude_wins := %s" % cbool(w["exclude_wins"]),
         "f_rewrite_skips_unknown := %s" % cbool(w["skips_unknown"]),
         "f_rewrite_identity_when_empty := %s" % cbool(w["identity"]),
+        "f_group_maps_to_leaf := %s" % cbool(g["maps_to_leaf"]),
     ]) + " |}.\n"
     write_if_changed(GEN / "Gen_compose.v", out)
 
